@@ -1351,7 +1351,11 @@ def c15_frame_size_setters(env):
         paths = ex.run(fn, {"_1": mir.Ref(("@self",), True), "@self": mir.Agg("transport"), "_2": x})
 
         def replay(m, which=which):
-            return f"setsize {1 if 'encoder' in which else 0} {model_value(m, x)}", (lambda js: js.get("panic") is True)
+            v = model_value(m, x)
+            probes = sorted({v, 512, 513, 515, 516, 1024})
+            if "encoder" not in which:
+                return f"setsize 0 {v}", (lambda js: js.get("panic") is True)
+            return [f"setsize 1 {q}" for q in probes], (lambda outs: any(js.get("panic") is True or js["encoder_max"] + 4 != max(q, 512) for q, js in zip(probes, outs)))
 
         n = 0
         for i, p in enumerate(paths):
@@ -1360,9 +1364,15 @@ def c15_frame_size_setters(env):
             n += 1
             for (d, ok, c) in p.obligations:
                 o.prove(f"path{i}:{d}", ex.assumptions + c, ok, replay=replay)
+        lim = z3.If(z3.UGE(x, z3.BitVecVal(512, 64)), x, z3.BitVecVal(512, 64))
         for j, (val, cond) in enumerate(captured):
             if "encoder" in which:
                 o.prove(f"installed-length-leaves-room-for-the-header#{j}", ex.assumptions + cond, z3.UGE(val, 8), replay=replay)
+                # the 4-byte size prefix is written on top of the encoder's limit: together they must stay within
+                # what the peer advertised (not below the protocol minimum of 512), and use all of it
+                o.prove(f"encoder-limit-plus-size-prefix-is-the-peers-max-frame-size#{j}", ex.assumptions + cond, val + 4 == lim, replay=replay)
+            else:
+                o.prove(f"decoder-limit-is-our-max-frame-size#{j}", ex.assumptions + cond, val == lim, replay=replay)
         o.cover("paths", [z3.BoolVal(n > 0 and len(captured) > 0)])
         out.append(o)
     return out
@@ -4694,3 +4704,322 @@ def c05_nnt(env):
 
 
 REGISTRY.setdefault("C05", []).append(c05_nnt)
+
+
+# ---- C08: which flows reach the link ----------------------------------------------------------------
+
+
+def c08_link_flow_classification(env):
+    o = Obligation("c08_a_flow_with_a_handle_is_a_link_flow", "C08")
+    o.desc = "TryFrom<Flow> for LinkFlow (the session uses it to decide whether an incoming flow is handed to a link): a flow is a link flow exactly when it carries a handle -- whatever else it carries or omits (a receiver may omit delivery-count before it has seen the sender's) -- and delivery-count, link-credit, drain and echo reach the link as they were sent; otherwise the credit the flow grants is never applied and a waiting send is never woken"
+    fn = env.fn(r"^endpoint::<impl at [^>]*>::try_from$", sig=r"performatives::Flow\) -> Result<(endpoint::)?LinkFlow")
+    o.functions = [fn.name]
+    o.bounds = ["one call; handle, delivery-count, link-credit present or absent with every 32-bit value; drain / echo"]
+    o.assumes = ["the link applies the LinkFlow (c08_sender_on_incoming_flow)"]
+    ex = env.executor(max_visits=3)
+    F = mir.Agg("flow")
+    sym = {}
+
+    def opt(tag, w=32):
+        a = mir.Agg(tag)
+        d = z3.BitVec(f"flow.{tag}.is_some", 64)
+        v = z3.BitVec(f"flow.{tag}", w)
+        a["#d"] = d
+        sm = mir.Agg("Some")
+        sm[0] = v
+        a[("as", "Some")] = sm
+        sym[tag] = (d, v)
+        return a
+
+    h = mir.Agg("handle")
+    hd = z3.BitVec("flow.handle.is_some", 64)
+    hv = z3.BitVec("flow.handle", 32)
+    h["#d"] = hd
+    sm = mir.Agg("Some")
+    hh = mir.Agg("Handle")
+    hh[0] = hv
+    sm[0] = hh
+    h[("as", "Some")] = sm
+    F[env.fidx("Flow", "handle")] = h
+    for f_ in ("delivery_count", "link_credit"):
+        F[env.fidx("Flow", f_)] = opt(f_)
+    drain, echo = z3.Bool("flow.drain"), z3.Bool("flow.echo")
+    F[env.fidx("Flow", "drain")] = drain
+    F[env.fidx("Flow", "echo")] = echo
+    paths = ex.run(fn, {"_1": F})
+    hyp = ex.assumptions + [z3.ULE(hd, 1)] + [z3.ULE(d, 1) for d, _ in sym.values()]
+
+    def replay(m):
+        return "scn credit_without_delivery_count", (lambda js: js.get("panic") or not js["send_completed"])
+
+    n = 0
+    for i, p in enumerate(paths):
+        if p.end != "return" or not isinstance(p.ret, mir.Agg) or "#d" not in p.ret:
+            continue
+        n += 1
+        H = hyp + p.cond
+        ok = p.ret["#d"] == 0
+        o.prove(f"path{i}:a-link-flow-exactly-when-it-has-a-handle", H, ok == (hd == 1), replay=replay)
+        okv = p.ret.get(("as", "Ok"))
+        lf = okv[0] if isinstance(okv, mir.Agg) and isinstance(okv.get(0), mir.Agg) else None
+        if lf is None:
+            continue
+        for f_ in ("delivery_count", "link_credit"):
+            out = lf.get(env.fidx("LinkFlow", f_))
+            d, v = sym[f_]
+            if isinstance(out, mir.Agg) and "#d" in out:
+                ov = out.get(("as", "Some"))
+                ov = ov[0] if isinstance(ov, mir.Agg) and 0 in ov else None
+                same = out["#d"] == d
+                if ov is not None and z3.is_bv(ov):
+                    same = z3.And(same, z3.Implies(d == 1, ov == v))
+                o.prove(f"path{i}:{f_}-reaches-the-link-as-sent", H + [ok], same, replay=replay)
+            else:
+                o.prove(f"path{i}:{f_}-reaches-the-link-as-sent", H + [ok], z3.BoolVal(False), replay=replay)
+        for f_, b in (("drain", drain), ("echo", echo)):
+            out = lf.get(env.fidx("LinkFlow", f_))
+            o.prove(f"path{i}:{f_}-reaches-the-link-as-sent", H + [ok], (out == b) if z3.is_bool(out) else z3.BoolVal(False), replay=replay)
+    o.cover("paths", [z3.BoolVal(n > 1)])
+    return [o]
+
+
+# ---- C17: only frames that ARRIVE postpone the local idle deadline ------------------------------------
+
+
+def c17_idle_deadline(env):
+    out = []
+    for which, must in (("start_send", False), ("poll_ready", False), ("poll_flush", False), ("poll_close", False)):
+        o = Obligation(f"c17_sending_does_not_postpone_the_idle_deadline_{which}", "C17")
+        o.desc = f"Sink<amqp::Frame> for Transport::{which}: the local idle time-out measures silence FROM the peer; nothing on the sending side may reset it (an endpoint that keeps sending heartbeats to a dead peer would otherwise never notice)"
+        fn = env.fn(rf"^transport::<impl at [^>]*>::{which}$", sig=r"Transport<Io, (frames::)?amqp::Frame>")
+        o.functions = [fn.name]
+        o.bounds = ["one call; every path"]
+        o.assumes = ["Transport::poll_next resets the deadline when the codec yields (C17's idle oracle)"]
+        ex = env.executor(max_visits=3)
+        paths = ex.run(fn, {"_1": mir.Agg("pin"), "_2": mir.Agg("arg")})
+
+        def replay(m):
+            return "scn idle_while_sending", (lambda js: js.get("panic") or js["result"] != "idle_timeout")
+
+        n = 0
+        for i, p in enumerate(paths):
+            if p.end != "return":
+                continue
+            n += 1
+            resets = count_calls(p, r"(IdleTimeout|Sleep|Delay).*::reset$")
+            o.prove(f"path{i}:no-reset-of-the-idle-deadline", ex.assumptions + p.cond, z3.BoolVal(resets == 0), replay=replay)
+        o.cover("paths", [z3.BoolVal(n > 0)])
+        out.append(o)
+    return out
+
+
+# ---- C10: every more=true frame is recorded, also one without payload ---------------------------------
+
+
+def c10_partial_frame_recorded(env):
+    o = Obligation("c10_every_partial_frame_is_recorded", "C10")
+    o.desc = "ReceiverInner::on_incomplete_transfer (a transfer with more=true): on every path the frame's performative is either merged into the delivery being reassembled (or_assign, which also reports contradictions) or starts one (IncompleteTransfer::new, stored in the receiver) -- whatever the payload length, also zero: the first frame carries delivery-id, tag and format that later frames may omit"
+    fn = env.fn(r"^receiver::<impl at [^>]*>::on_incomplete_transfer$")
+    o.functions = [fn.name]
+    o.bounds = ["one call; a delivery already buffered or not; every payload length"]
+    o.assumes = ["IncompleteTransfer::or_assign / append are C10's Kani harnesses"]
+    ex = env.executor(max_visits=3)
+    R = mir.Agg("receiver")
+    f_inc = env.fidx("ReceiverInner", "incomplete_transfer")
+    inc = mir.Agg("incomplete_transfer")
+    inc_d = z3.BitVec("pre.incomplete_transfer.is_some", 64)
+    inc["#d"] = inc_d
+    R[f_inc] = inc
+    paths = ex.run(fn, {"_1": mir.Ref(("@self",), True), "@self": R, "_2": mir.Agg("transfer"), "_3": mir.Agg("payload")})
+    hyp = ex.assumptions + [z3.ULE(inc_d, 1)]
+
+    def replay(m):
+        return "scn empty_first_fragment", (lambda js: js.get("panic") or not js["intact"])
+
+    n = 0
+    for i, p in enumerate(paths):
+        if p.end != "return" or not isinstance(p.ret, mir.Agg) or "#d" not in p.ret:
+            continue
+        n += 1
+        H = hyp + p.cond + [p.ret["#d"] == 0]
+        merged = count_calls(p, r"IncompleteTransfer::or_assign$")
+        started = count_calls(p, r"IncompleteTransfer::new$")
+        o.prove(f"path{i}:the-frame-is-merged-or-starts-a-delivery", H, z3.BoolVal(merged + started == 1), replay=replay)
+        o.prove(f"path{i}:merged-when-a-delivery-is-buffered", H + [inc_d == 1], z3.BoolVal(merged == 1), replay=replay)
+        cur = p.locals["@self"].get(f_inc) if isinstance(p.locals.get("@self"), mir.Agg) else None
+        post_d = cur.get("#d") if isinstance(cur, mir.Agg) else None
+        o.prove(f"path{i}:a-delivery-is-buffered-afterwards", H, (post_d == 1) if post_d is not None else z3.BoolVal(False), replay=replay)
+    o.cover("paths", [z3.BoolVal(n > 1)])
+    return [o]
+
+
+# ---- C19: the SCRAM server nonce is drawn per exchange -------------------------------------------------
+
+
+def c19_server_nonce_fresh(env):
+    o = Obligation("c19_scram_server_nonce_is_drawn_for_each_exchange", "C19")
+    o.desc = "ScramAuthenticator::compute_server_first_message (run once per SASL exchange, on the client-first message): the server's part of the nonce is generated by this call (a call to the random source on every path that produces a server-first), not taken from the authenticator -- which the listener clones for every connection; with a reused server nonce a recorded exchange replays verbatim (same AuthMessage, same proof)"
+    fn = env.fn(r"^(auth::scram::)?server::<impl at [^>]*>::compute_server_first_message$", sig=r"ScramAuthenticator<")
+    o.functions = [fn.name]
+    o.bounds = ["one call; every path"]
+    o.assumes = ["generate_nonce / the rand source yields unpredictable values"]
+    ex = env.executor(max_visits=3)
+    ex.max_paths = 3000
+    paths = ex.run(fn, {"_1": mir.Ref(("@self",), False), "@self": mir.Agg("authenticator"), "_2": mir.Agg("client_first")})
+
+    def replay(m):
+        return "scram_replay", (lambda js: js.get("panic") or js["replay_accepted"])
+
+    n = 0
+    for i, p in enumerate(paths):
+        if p.end != "return" or not isinstance(p.ret, mir.Agg) or "#d" not in p.ret:
+            continue
+        H = ex.assumptions + p.cond + [p.ret["#d"] == 0]
+        s = z3.Solver()
+        s.add(*H)
+        if s.check() != z3.sat:
+            continue
+        n += 1
+        draws = count_calls(p, r"(^|::)generate_nonce$")
+        o.prove(f"path{i}:a-server-first-is-built-on-a-nonce-drawn-now", H, z3.BoolVal(draws >= 1), replay=replay)
+    o.cover("paths that produce a server-first", [z3.BoolVal(n > 0)])
+    return [o]
+
+
+REGISTRY.setdefault("C08", []).append(c08_link_flow_classification)
+REGISTRY.setdefault("C17", []).append(c17_idle_deadline)
+REGISTRY.setdefault("C10", []).append(c10_partial_frame_recorded)
+REGISTRY.setdefault("C19", []).append(c19_server_nonce_fresh)
+
+
+# ---- C20 / C03: the default read_bytes returns exactly the n bytes asked for ---------------------------
+
+
+def c20_io_read_bytes(env):
+    o = Obligation("c20_io_read_bytes_returns_exactly_n", "C20")
+    o.desc = "Read::read_bytes(n) (default method: owned str / symbol / binary through the io reader, n from the size field): on Ok the vector holds exactly n bytes and exactly n bytes were taken from the reader -- also when n needs several 4 KiB chunks and is not a multiple of the chunk size -- so that the io reader yields the same value as the slice reader and leaves what follows untouched"
+    senv, fn, paths, hyp, (N, L0, A0), o.bounds, o.assumes = _io_fill_buffer(env, "C20", "read_bytes")
+    o.functions = [fn.name]
+
+    def replay(m):
+        n = model_value(m, N)
+        probes = sorted({min(max(n, 1), 20000), 4097, 5000, 8191, 8193, 4096, 255})
+        cmds = [f"ioread_big {x}" for x in probes]
+        return cmds, (lambda outs: any(js.get("panic") or not js["agree"] for js in outs))
+
+    n_ret = 0
+    for i, p in enumerate(paths):
+        if p.end != "return" or not isinstance(p.ret, mir.Agg) or "#d" not in p.ret:
+            continue
+        n_ret += 1
+        wd = p.locals["@world"]
+        o.prove(f"path{i}:ok-means-exactly-n-bytes", hyp + p.cond + [p.ret["#d"] == 0], z3.And(wd["len"] == N, wd["received"] == N), replay=replay)
+    o.cover("a call that needs two chunks returns", [z3.BoolVal(n_ret > 1)] + hyp + [z3.UGT(N, IO_SLACK), z3.UGE(A0, N)])
+    return [o]
+
+
+def c03_io_read_bytes(env):
+    return [x for x in c20_io_read_bytes(env) if _retag(x, "C03", "c03_io_read_bytes_returns_exactly_n")]
+
+
+REGISTRY.setdefault("C20", []).append(c20_io_read_bytes)
+REGISTRY.setdefault("C03", []).append(c03_io_read_bytes)
+
+
+def c06_frame_size_setters(env):
+    return [x for x in c15_frame_size_setters(env) if "encoder" in x.name and _retag(x, "C06", x.name.replace("c15_", "c06_"))]
+
+
+REGISTRY.setdefault("C06", []).append(c06_frame_size_setters)
+
+
+# ---- C20: the size computed for a list / map header is the number of bytes the encoder writes --------
+
+
+def c20_compound_header_sizes(env):
+    out = []
+    senv = env.crate("serde_amqp")
+    ARR = senv.enums["IsArrayElement"]
+    for kind in ("map", "list"):
+        o = Obligation(f"c20_size_of_{kind}_header_matches_the_encoder", "C20")
+        o.desc = f"ser::write_{kind} (what the encoder writes for a {kind} whose entries take L bytes: constructor, size, count, entries) against size_ser::{kind}_size (what serialized_size counts): for EVERY L and every array-element position they agree on the number of bytes and on which lengths are too long -- in particular on the L at which the 8-bit form gives way to the 32-bit form"
+        fw = senv.fn(rf"^write_{kind}$")
+        fs = senv.fn(rf"^{kind}_size$")
+        o.functions = [fw.name + " (serde_amqp)", fs.name + " (serde_amqp)"]
+        o.bounds = ["every 64-bit length of the entry bytes; every IsArrayElement position; the writer accepts every write"]
+        o.assumes = ["io::Write::write_all(buf) writes buf.len() bytes or fails (std)"]
+        L = z3.BitVec("entries.len", 64)
+        arr_d = z3.BitVec("is_array_element", 64)
+
+        def run_writer():
+            ex = mir.Executor(senv.fns, senv.structs, senv.enums, max_visits=3, consts=senv.consts)
+            total = {"n": z3.BitVecVal(0, 64)}
+
+            def tgt(ex_, st, v):
+                k = 0
+                while isinstance(v, mir.Ref) and k < 4:
+                    cont, key = ex_.resolve(st, list(v.path))
+                    v = cont.get(key)
+                    k += 1
+                return v
+
+            def m_write(ex_, st, callee, args, argvals, dty):
+                sl = tgt(ex_, st, argvals[1])
+                if not (isinstance(sl, mir.Agg) and "#len" in sl):
+                    raise mir.Unsupported("write_all of a slice of unknown length")
+                w = st.locals.setdefault("@written", mir.Agg("written"))
+                w["n"] = (w["n"] if "n" in w else z3.BitVecVal(0, 64)) + sl["#len"]
+                r = mir.Agg("Result")
+                r["#d"] = z3.BitVecVal(0, 64)
+                return r
+
+            ex.models = [(r"Write>::write_all$", m_write)]
+            buf = mir.Agg("entries")
+            buf["#len"] = L
+            a = mir.Agg("IsArrayElement")
+            a["#d"] = arr_d
+            w0 = mir.Agg("written")
+            w0["n"] = z3.BitVecVal(0, 64)
+            paths = ex.run(fw, {"_1": mir.Agg("writer"), "_2": z3.BitVec("count", 64), "_3": mir.Ref(("@buf",), False), "@buf": buf, "_4": mir.Ref(("@arr",), False), "@arr": a, "@written": w0})
+            return ex, [p for p in paths if p.end == "return" and isinstance(p.ret, mir.Agg) and "#d" in p.ret]
+
+        def run_size():
+            ex = mir.Executor(senv.fns, senv.structs, senv.enums, max_visits=3, consts=senv.consts)
+            a = mir.Agg("IsArrayElement")
+            a["#d"] = arr_d
+            paths = ex.run(fs, {"_1": L, "_2": mir.Ref(("@arr",), False), "@arr": a})
+            return ex, [p for p in paths if p.end == "return" and isinstance(p.ret, mir.Agg) and "#d" in p.ret]
+
+        exw, pw = run_writer()
+        exs, ps = run_size()
+        hyp = exw.assumptions + exs.assumptions + [z3.Or(*[arr_d == v for v in ARR.values()])]
+
+        def replay(m, kind=kind):
+            l = model_value(m, L)
+            probes = sorted({min(l, 70000), 0, 1, 253, 254, 255, 256, 257})
+            cmds = [f"hdrsize {kind} {x}" for x in probes]
+            return cmds, (lambda outs: any(js.get("panic") or not js["agree"] for js in outs))
+
+        B = _Batch(o, replay)
+        n = 0
+        for a_ in pw:
+            for b_ in ps:
+                H = hyp + a_.cond + b_.cond
+                s = z3.Solver()
+                s.add(*H)
+                if s.check() != z3.sat:
+                    continue
+                n += 1
+                okw, oks = a_.ret["#d"] == 0, b_.ret["#d"] == 0
+                B.add(0, "the-same-lengths-are-too-long", H, okw == oks)
+                sz = b_.ret.get(("as", "Ok"))
+                sz = sz[0] if isinstance(sz, mir.Agg) and 0 in sz else None
+                wr = a_.locals["@written"]["n"]
+                B.add(0, "bytes-written-equal-the-size-counted", H + [okw, oks], (wr == sz) if sz is not None and z3.is_bv(sz) else z3.BoolVal(False))
+        B.flush()
+        o.cover("pairs of paths", [z3.BoolVal(n > 2)])
+        out.append(o)
+    return out
+
+
+REGISTRY.setdefault("C20", []).append(c20_compound_header_sizes)
